@@ -83,7 +83,7 @@ Inductive dstat :=
 | DsDone                       (* every entry of the chunk was sent or rejected *)
 | DsNoProgress                 (* sent <= 0 with a nil error: WriteBatch returns an error *)
 | DsGsoOff (restart : nat)     (* EIO on a multi-packet entry: GSO disabled, i rewinds to the run's start *)
-| DsBadOracle                  (* the oracle claimed more entries than were offered *)
+| DsBadOracle                  (* the oracle claimed more entries than were offered (that call is not recorded) *)
 | DsFuel.
 
 Definition sum_pkts (es : list entry) : N := N.of_nat (fold_right (fun e a => (e_pkts e + a)%nat) 0%nat es).
@@ -101,7 +101,7 @@ Fixpoint drain (fuel : nat) (gso : bool) (orc : oracle) (k : nat) (ents : list e
           let '(sent, errno) := orc k (N.of_nat n) in
           let c := mkCall ents sent errno in
           if (0 <? sent)%Z then
-            if (Z.of_nat n <? sent)%Z then ([c], S k, written, DsBadOracle) else
+            if (Z.of_nat n <? sent)%Z then ([], S k, written, DsBadOracle) else
             let s := Z.to_nat sent in
             let '(cs, k', w', st) := drain f gso orc (S k) (skipn s ents) (written + sum_pkts (firstn s ents)) in
             (c :: cs, k', w', st)
